@@ -146,8 +146,17 @@ func (f *Filler) fillField(owner string, sf reflect.StructField, fv reflect.Valu
 			m.SetMapIndex(reflect.ValueOf(fmt.Sprintf("f%d.go", k)), f.child(t.Elem(), depth-1))
 		}
 		fv.Set(m)
-	case t.Kind() == reflect.Map:
-		// Package.Imports (map[string]*Object): left empty
+	case t.Kind() == reflect.Map && t.Elem() == reflect.TypeOf((*dst.Object)(nil)):
+		// Package.Imports: package objects whose Data is the imported package's scope
+		m := reflect.MakeMap(t)
+		for k := 0; k < 2; k++ {
+			sc := dst.NewScope(nil)
+			sc.Insert(dst.NewObj(dst.Fun, "Member"))
+			o := dst.NewObj(dst.Pkg, fmt.Sprintf("imp%d", k))
+			o.Data = sc
+			m.SetMapIndex(reflect.ValueOf(fmt.Sprintf("ex.com/imp%d", k)), reflect.ValueOf(o))
+		}
+		fv.Set(m)
 	}
 }
 
